@@ -823,8 +823,11 @@ func (g *gen) mutateBetweenCalls(c *Case, real *Real) {
 	if len(c.Ops) == 0 || c.Ops[len(c.Ops)-1].Kind != "parse" {
 		c.Ops = append(c.Ops, Op{Kind: "parse", Args: g.genArgv(real)})
 	}
-	if r.Intn(3) == 0 {
+	switch r.Intn(4) {
+	case 0:
 		c.Ops = append(c.Ops, Op{Kind: "help", Cols: termCols})
+	case 1:
+		c.Ops = append(c.Ops, Op{Kind: "complete", Args: append(g.genArgv(real), "")})
 	}
 	var muts []BuildOp
 	var extra []string
@@ -865,7 +868,15 @@ func (g *gen) mutateBetweenCalls(c *Case, real *Real) {
 			}
 		case x < 7 && len(grps) > 0:
 			gr := grps[r.Intn(len(grps))]
-			muts = append(muts, BuildOp{Kind: "setgrp", Target: gr[0], Gi: gr[1], Attr: "ns", Vals: []string{hx("zzns")}})
+			switch r.Intn(3) {
+			case 0:
+				muts = append(muts, BuildOp{Kind: "setgrp", Target: gr[0], Gi: gr[1], Attr: "ns", Vals: []string{hx("zzns")}})
+			case 1:
+				// (the environment of the generated cases holds EN_VF_A, X_VF_B, EN__VF_A)
+				muts = append(muts, BuildOp{Kind: "setgrp", Target: gr[0], Gi: gr[1], Attr: "envns", Vals: []string{hx([]string{"EN", "X", "EN_"}[r.Intn(3)])}})
+			case 2:
+				muts = append(muts, BuildOp{Kind: "setgrp", Target: gr[0], Gi: gr[1], Attr: "hidden", Vals: []string{[]string{"0", "1"}[r.Intn(2)]}})
+			}
 		case x < 8 && len(opts) > 0:
 			o := opts[r.Intn(len(opts))]
 			muts = append(muts, BuildOp{Kind: "setopt", Target: o.uid, Gi: o.gi, Oi: o.oi, Attr: "default", Vals: []string{hx([]string{"7", "x1", "zz"}[r.Intn(3)])}})
@@ -897,8 +908,19 @@ func (g *gen) mutateBetweenCalls(c *Case, real *Real) {
 		}
 		argv = append(argv[:at:at], append([]string{e}, argv[at:]...)...)
 	}
-	c.Ops = append(c.Ops, Op{Kind: "parse", Args: argv})
-	if r.Intn(4) == 0 {
+	// what is asked of the parser after the assignments: a call — or a completion, the help, the man page
+	switch r.Intn(8) {
+	case 0:
 		c.Ops = append(c.Ops, Op{Kind: "help", Cols: termCols})
+	case 1:
+		comp := append(append([]string{}, argv...), []string{"-", "--", "", "z"}[r.Intn(4)])
+		c.Ops = append(c.Ops, Op{Kind: "complete", Args: comp})
+	case 2:
+		c.Ops = append(c.Ops, Op{Kind: "man"})
+	default:
+		c.Ops = append(c.Ops, Op{Kind: "parse", Args: argv})
+		if r.Intn(4) == 0 {
+			c.Ops = append(c.Ops, Op{Kind: "help", Cols: termCols})
+		}
 	}
 }
